@@ -120,6 +120,7 @@ def actions(tier):
     acts.append({"op": "sim", "date": "2023-01-01", "pop": "fam", "targets": "single", "rounding": True, "debug": False, "form": "series-index"})
     acts.append({"op": "reform", "date": "2023-01-01", "pop": "fam", "group": "kindergeld", "how": "copy"})
     acts.append({"op": "reform", "date": "2023-01-01", "pop": "fam", "group": "sozialv_beitr", "how": "copy"})
+    acts.append({"op": "reform_inplace_then_discard", "date": "2023-01-01", "pop": "fam"})
     acts.append({"op": "reform_function", "date": "2023-01-01", "pop": "fam", "rule": "kindergeld_m"})
     acts.append({"op": "reform_function_wrapped", "date": "2023-01-01", "pop": "fam", "rule": "kindergeld_m"})
     acts.append({"op": "reform_function_wrapped", "date": "2023-01-01", "pop": "fam", "rule": "ges_rentenv_beitr_arbeitnehmer_m"})
@@ -269,6 +270,33 @@ def execute(a, ctx):
             else:
                 g["eink_st_tarif"]["rates"] = g["eink_st_tarif"]["rates"] * 1.05
             data, targets = df, None
+        elif op == "reform_inplace_then_discard":
+            # the user edits the dictionaries returned by set_up_policy_environment in place (deeply nested leaves), simulates, and throws
+            # that environment away; later calls build their environment anew
+            ctx.envs.pop(str(date), None)
+            from gettsim import set_up_policy_environment as _setup
+
+            params, funcs = _setup(date)
+
+            def bump(x, depth=0):
+                if isinstance(x, dict):
+                    for k in list(x):
+                        if k in ("datum", "rounding"):
+                            continue
+                        v = x[k]
+                        if isinstance(v, dict):
+                            bump(v, depth + 1)
+                        elif isinstance(v, np.ndarray) and v.dtype.kind == "f":
+                            v *= 1.05
+                        elif isinstance(v, float) and np.isfinite(v):
+                            x[k] = v * 1.05
+                        elif isinstance(v, int) and not isinstance(v, bool) and depth >= 1:
+                            x[k] = v + 1
+
+            for g in ("sozialv_beitr", "wohngeld", "kindergeld", "arbeitsl_geld_2", "eink_st", "ges_rente"):
+                bump(params[g])
+            p, f = params, funcs
+            data, targets = df, None
         elif op == "reform_function":
             def kindergeld_m(kindergeld_anz_ansprüche: int) -> float:
                 return kindergeld_anz_ansprüche * 333.0
@@ -380,7 +408,7 @@ def run(tier):
             rep.violation("nondeterministic-across-processes:" + json.loads(k)["op"], {"history": [json.loads(k)]}, f"{k}: {fresh[k]} vs {again[k]}")
     # histories: singles, all ordered pairs, triples over the state-relevant alphabet, repeated calls
     hists = [[a] for a in acts] + [[a, b] for a in acts for b in acts]
-    small = [a for a in acts if a["op"] in ("vectorize", "vectorize_all", "reform", "failing_sim", "reform_function_wrapped") or (a["op"] == "sim" and a["form"] != "frame")][: (6 if tier == "quick" else 9)]
+    small = [a for a in acts if a["op"] in ("vectorize", "vectorize_all", "reform", "failing_sim", "reform_function_wrapped", "reform_inplace_then_discard") or (a["op"] == "sim" and a["form"] != "frame")][: (6 if tier == "quick" else 9)]
     probe = [a for a in acts if a["op"] == "sim"][:3]
     hists += [[a, b, c] for a in small for b in small for c in probe]
     seen_states = set()
